@@ -21,6 +21,8 @@ def id_scenarios(rng, n):
             sc['pool'].pop(key, None)
             if v:
                 sc['pool'][key] = True
+        if b and rng.random() < .35:
+            sc['pool']['shared_objects'] = 'falsy'      # enabled means "not None": an empty list is passed on like any other object
         for op in sc['ops']:
             op['init'] = op['exit'] = True
             if rng.random() < .5:
@@ -81,6 +83,8 @@ def run(chk):
             impl.append(small.args_run(kind, a, b, c, wid, arg, kw))
         except TypeError as e:
             impl.append('TypeError')
+        except Exception as e:  # noqa: the helpers cannot be driven stand-alone on this tree: a broken tie (the whole-call suites below still run)
+            impl.append('harness-cannot-drive-the-helpers: ' + repr(e)[:120])
     out = drv.run(lines)
     for line, i, m in zip(lines, impl, out):
         if i == 'TypeError':
